@@ -300,6 +300,55 @@ class HvTwoFeedback(Logic):
         Reg(self, 'reg', w, q)
 
 
+class HvMultiOutFar(Logic):
+    """two different outputs of one multi-output instance that both travel several columns to their readers"""
+    def __init__(self, parent, name, a, r, s):
+        super().__init__(parent, name)
+        a = self.addIn('a', a)
+        r = self.addOut('r', r)
+        s = self.addOut('s', s)
+        b0 = self.wire('b0')
+        b1 = self.wire('b1')
+        b2 = self.wire('b2')
+        y0 = self.wire('y0')
+        y1 = self.wire('y1')
+        BitsLSBF(self, 'bits', a, [b0, b1, b2])
+        Not(self, 'n0', b2, y0)
+        Not(self, 'n1', y0, y1)
+        And2(self, 'j0', y1, b0, r)
+        Or2(self, 'j1', y1, b1, s)
+
+
+class HvTwoPinsFar(Logic):
+    """one wire on two pins of a three-input instance that sits several columns after the driver of that wire"""
+    def __init__(self, parent, name, a, b, r):
+        super().__init__(parent, name)
+        a = self.addIn('a', a)
+        b = self.addIn('b', b)
+        r = self.addOut('r', r)
+        t = self.wire('t', a.getWidth())
+        y0 = self.wire('y0')
+        y1 = self.wire('y1')
+        Add(self, 'dbl', a, a, t)
+        Not(self, 'n0', b, y0)
+        Not(self, 'n1', y0, y1)
+        Mux2(self, 'mx', y1, t, t, r)
+
+
+class HvNoInputs(Logic):
+    """a block without input ports whose feedback edge lands on a first-level instance (toggle), combinational part built first"""
+    def __init__(self, parent, name, q, add_first=True):
+        super().__init__(parent, name)
+        q = self.addOut('q', q)
+        d = self.wire('d', q.getWidth())
+        if add_first:
+            Not(self, 'inv', q, d)
+            Reg(self, 'reg', d, q)
+        else:
+            Reg(self, 'reg', d, q)
+            Not(self, 'inv', q, d)
+
+
 class HvInvChild(Not):
     """a leaf that inherits propagate() from a library block"""
     pass
